@@ -3,8 +3,10 @@
    stream carriers, IsPMT).  Spec/PatSpec.v: `ser_payload s rest` = pointer_field 0, the program
    association section of the logical record s (any entry list with section_length < 1024, any
    reserved bits), then any trailing bytes; `ser_packet h af payload` = the 188-byte packet.
-   Hypothesis of the whole property: pointer_field = 0 (the accessors hard-code offset 8). *)
-From Gots Require Import Base.Prelude Model.Pat Spec.PatSpec Proofs.Pat Proofs.PatCarriers.
+   Hypothesis of the theorems up to C07_packet_fields: pointer_field = 0.  The section C07_pointer_nonzero_* below
+   (Proofs/PatPointer.v) says exactly what the code does for pointer_field = k > 0, which is why the hypothesis is
+   needed: NumPrograms honours the pointer, ProgramMap / SPTSpmtPID / IsPMT decode from the fixed payload offset 9. *)
+From Gots Require Import Base.Prelude Model.Pat Spec.PatSpec Proofs.Pat Proofs.PatCarriers Proofs.PatPointer.
 Import PatSpec.
 Local Open Scope N_scope.
 
@@ -82,6 +84,69 @@ Theorem C07_packet_fields : forall h af pay, wf_packet h af pay ->
   len (ser_packet h af pay) = 188.
 Proof. exact packet_fields. Qed.
 Print Assumptions C07_packet_fields.
+
+(* ---- pointer_field = k: `ser_payload_pf k filler s rest` = the pointer byte k, k bytes that precede the section
+        (the end of a previous section or stuffing), the section, then anything.  For EVERY k < 256:
+        NewPAT accepts the bytes as they are (C07_pointer_nonzero_new_pat), SectionLength / NumPrograms honour the
+        pointer and return the number of entries, but ProgramMap decodes the n = NumPrograms() four-byte groups that
+        begin at payload offset 9 - `seen`: bytes 8.. of what follows the pointer byte - which are the entries only
+        when k = 0 (C07_pointer_zero_seen); for k > 0 they are the k bytes before the entry loop and all but the last
+        k bytes of it.  SPTSpmtPID and IsPMT follow ProgramMap. ---- *)
+Theorem C07_pointer_nonzero_new_pat : forall k filler s rest, wf_section s -> k < 256 -> len filler = k ->
+  len (ser_payload_pf k filler s rest) <> 188 ->
+  Pat.new_pat (ser_payload_pf k filler s rest) = Ok (ser_payload_pf k filler s rest).
+Proof. exact new_pat_pf. Qed.
+Print Assumptions C07_pointer_nonzero_new_pat.
+Theorem C07_pointer_nonzero_num_programs : forall k filler s rest, wf_section s -> k < 256 -> len filler = k ->
+  Pat.num_programs (ser_payload_pf k filler s rest) = Ok (Z.of_nat (length (entries s))).
+Proof. exact num_programs_pf. Qed.
+Print Assumptions C07_pointer_nonzero_num_programs.
+Theorem C07_pointer_nonzero_program_map : forall k filler s rest, wf_section s -> k < 256 -> len filler = k ->
+  is_bytes filler -> is_bytes rest ->
+  exists m, Pat.program_map (ser_payload_pf k filler s rest) = Ok m /\ NoDup (map fst m) /\
+            forall p x, In (p, x) m <-> map_lookup (seen filler s rest) p = Some x.
+Proof. exact program_map_pf_spec. Qed.
+Print Assumptions C07_pointer_nonzero_program_map.
+Theorem C07_pointer_nonzero_spts : forall k filler s rest, wf_section s -> k < 256 -> len filler = k ->
+  is_bytes filler -> is_bytes rest ->
+  Pat.spts_pmt_pid (ser_payload_pf k filler s rest) =
+  if (1 <? Z.of_nat (length (entries s)))%Z then Err E.Other else
+  match seen filler s rest with [e] => if pn e =? 0 then Err E.Other else Ok (pid e) | _ => Err E.Other end.
+Proof. exact spts_pf. Qed.
+Print Assumptions C07_pointer_nonzero_spts.
+Theorem C07_pointer_zero_seen : forall s rest, wf_section s -> seen [] s rest = entries s.
+Proof. exact seen_pf0. Qed.
+Print Assumptions C07_pointer_zero_seen.
+
+(* the property as its text reads - program map / single-program PID exact for every well-formed section supplied as
+   payload bytes, whatever the pointer_field - is therefore FALSE of the code: *)
+Definition C07_program_map_any_pointer_full : Prop :=
+  forall k filler s rest, wf_section s -> k < 256 -> len filler = k -> is_bytes filler -> is_bytes rest ->
+  exists m, Pat.program_map (ser_payload_pf k filler s rest) = Ok m /\
+            forall p x, In (p, x) m <-> map_lookup (entries s) p = Some x.
+(* C07_program_map above is the part that holds (k = 0, `_partial` in the sense of the guide); witness against the
+   full statement: one program 1 -> PID 0x100, pointer_field 1, one stuffing byte: NumPrograms = 1 but the map is
+   empty and SPTSpmtPID fails (replay in notes/findings/C07.md) *)
+Theorem C07_pointer_nonzero_refuted :
+  wf_section wit_section /\
+  wit_payload = [1; 255; 0; 0xB0; 13; 0; 1; 0xC1; 0; 0; 0; 1; 0xE1; 0; 1; 2; 3; 4] /\
+  Pat.new_pat wit_payload = Ok wit_payload /\
+  Pat.num_programs wit_payload = Ok 1%Z /\
+  Pat.program_map wit_payload = Ok [] /\ map_lookup (entries wit_section) 1 = Some 0x100 /\
+  Pat.spts_pmt_pid wit_payload = Err E.Other /\ spts (entries wit_section) = Some 0x100.
+Proof. exact pointer_nonzero_witness. Qed.
+Print Assumptions C07_pointer_nonzero_refuted.
+Theorem C07_program_map_any_pointer_full_refuted : ~ C07_program_map_any_pointer_full.
+Proof. exact any_pointer_full_refuted. Qed.
+Print Assumptions C07_program_map_any_pointer_full_refuted.
+
+(* ---- the executable oracle `spec.pat` of modelexec (Spec/PatSpec.v: spec_num / spec_map / spts / spec_is_pmt, computed
+        from the logical entry list alone) is the map of the theorems: exactly the pairs of map_lookup, keys strictly
+        increasing (so it IS the sorted observation) ---- *)
+Theorem C07_spec_oracle_map : forall es,
+  (forall p x, In (p, x) (spec_map es) <-> map_lookup es p = Some x) /\ incr (map fst (spec_map es)).
+Proof. intros es. exact (conj (spec_map_in es) (spec_map_keys_incr es)). Qed.
+Print Assumptions C07_spec_oracle_map.
 
 (* non-vacuity: a three-entry section (network entry, a program, the same program again with PID high
    bits and reserved bits set) in a packet with an adaptation field *)
